@@ -164,10 +164,13 @@ class Ctx:
                "generated": int(m.group(1)) if m else 0, "distinct": int(m.group(2)) if m else 0}
         return res
 
-    def model_check(self, module, cfg=None, env=None, workers=8, timeout=900, expect_states=None, extra=()):
+    def model_check(self, module, cfg=None, env=None, workers=8, timeout=900, expect_states=None, extra=(), allow_never=(), coverage=False):
         """Check the bounded model.  A failure here is a defect of the specification (exit 2),
         not of the code."""
-        res = self._tlc(module, cfg or module + ".cfg", env or {}, workers, timeout, extra=("-coverage", "1") + tuple(extra))
+        # -coverage gives per-action counts (vacuity guard) but slows large operator-heavy models 10x;
+        # those are guarded by expect_states and by the number of emitted scripts instead
+        res = self._tlc(module, cfg or module + ".cfg", env or {}, workers, timeout,
+                        extra=(("-coverage", "1") if coverage else ()) + tuple(extra))
         out = res["out"]
         if res["rc"] != 0 or "No error has been found" not in out:
             tail = "\n".join(l for l in out.splitlines() if not l.startswith("Progress"))[-3000:]
@@ -180,7 +183,7 @@ class Ctx:
         never = []
         for mm in re.finditer(r"<(\w+) line \d+, col \d+ to line \d+, col \d+ of module (\w+)>: (\d+):(\d+)", out):
             name, mod, distinct, total = mm.group(1), mm.group(2), int(mm.group(3)), int(mm.group(4))
-            if total == 0 and name not in ("Init",):
+            if total == 0 and name not in ("Init",) and name not in allow_never:
                 never.append(name)
         if never:
             raise ToolError("model %s: actions never taken: %s (vacuity guard)" % (module, never))
